@@ -1,6 +1,6 @@
-Extract/C01x.vo Extract/C01x.glob Extract/C01x.v.beautified Extract/C01x.required_vo: Extract/C01x.v Model/StCore.vo Model/StTyping.vo
-Extract/C01x.vio: Extract/C01x.v Model/StCore.vio Model/StTyping.vio
-Extract/C01x.vos Extract/C01x.vok Extract/C01x.required_vos: Extract/C01x.v Model/StCore.vos Model/StTyping.vos
+Extract/C01x.vo Extract/C01x.glob Extract/C01x.v.beautified Extract/C01x.required_vo: Extract/C01x.v Model/StCore.vo Model/StTyping.vo Model/StRef.vo
+Extract/C01x.vio: Extract/C01x.v Model/StCore.vio Model/StTyping.vio Model/StRef.vio
+Extract/C01x.vos Extract/C01x.vok Extract/C01x.required_vos: Extract/C01x.v Model/StCore.vos Model/StTyping.vos Model/StRef.vos
 Extract/C04x.vo Extract/C04x.glob Extract/C04x.v.beautified Extract/C04x.required_vo: Extract/C04x.v Model/Fb.vo Spec/C04.vo Spec/C04Judge.vo
 Extract/C04x.vio: Extract/C04x.v Model/Fb.vio Spec/C04.vio Spec/C04Judge.vio
 Extract/C04x.vos Extract/C04x.vok Extract/C04x.required_vos: Extract/C04x.v Model/Fb.vos Spec/C04.vos Spec/C04Judge.vos
@@ -46,9 +46,15 @@ Model/Sched.vos Model/Sched.vok Model/Sched.required_vos: Model/Sched.v
 Model/StCore.vo Model/StCore.glob Model/StCore.v.beautified Model/StCore.required_vo: Model/StCore.v 
 Model/StCore.vio: Model/StCore.v 
 Model/StCore.vos Model/StCore.vok Model/StCore.required_vos: Model/StCore.v 
+Model/StRef.vo Model/StRef.glob Model/StRef.v.beautified Model/StRef.required_vo: Model/StRef.v Model/StCore.vo Model/StTyping.vo
+Model/StRef.vio: Model/StRef.v Model/StCore.vio Model/StTyping.vio
+Model/StRef.vos Model/StRef.vok Model/StRef.required_vos: Model/StRef.v Model/StCore.vos Model/StTyping.vos
 Model/StTyping.vo Model/StTyping.glob Model/StTyping.v.beautified Model/StTyping.required_vo: Model/StTyping.v Model/StCore.vo
 Model/StTyping.vio: Model/StTyping.v Model/StCore.vio
 Model/StTyping.vos Model/StTyping.vok Model/StTyping.required_vos: Model/StTyping.v Model/StCore.vos
+Proofs/C02Proofs.vo Proofs/C02Proofs.glob Proofs/C02Proofs.v.beautified Proofs/C02Proofs.required_vo: Proofs/C02Proofs.v Model/StCore.vo Model/StTyping.vo Model/StRef.vo
+Proofs/C02Proofs.vio: Proofs/C02Proofs.v Model/StCore.vio Model/StTyping.vio Model/StRef.vio
+Proofs/C02Proofs.vos Proofs/C02Proofs.vok Proofs/C02Proofs.required_vos: Proofs/C02Proofs.v Model/StCore.vos Model/StTyping.vos Model/StRef.vos
 Proofs/C04Proofs.vo Proofs/C04Proofs.glob Proofs/C04Proofs.v.beautified Proofs/C04Proofs.required_vo: Proofs/C04Proofs.v Model/Fb.vo Spec/C04.vo
 Proofs/C04Proofs.vio: Proofs/C04Proofs.v Model/Fb.vio Spec/C04.vio
 Proofs/C04Proofs.vos Proofs/C04Proofs.vok Proofs/C04Proofs.required_vos: Proofs/C04Proofs.v Model/Fb.vos Spec/C04.vos
@@ -76,6 +82,9 @@ Proofs/StProofs.vos Proofs/StProofs.vok Proofs/StProofs.required_vos: Proofs/StP
 Properties/C01.vo Properties/C01.glob Properties/C01.v.beautified Properties/C01.required_vo: Properties/C01.v Model/StCore.vo Model/StTyping.vo Proofs/StProofs.vo
 Properties/C01.vio: Properties/C01.v Model/StCore.vio Model/StTyping.vio Proofs/StProofs.vio
 Properties/C01.vos Properties/C01.vok Properties/C01.required_vos: Properties/C01.v Model/StCore.vos Model/StTyping.vos Proofs/StProofs.vos
+Properties/C02.vo Properties/C02.glob Properties/C02.v.beautified Properties/C02.required_vo: Properties/C02.v Model/StCore.vo Model/StTyping.vo Model/StRef.vo Proofs/C02Proofs.vo
+Properties/C02.vio: Properties/C02.v Model/StCore.vio Model/StTyping.vio Model/StRef.vio Proofs/C02Proofs.vio
+Properties/C02.vos Properties/C02.vok Properties/C02.required_vos: Properties/C02.v Model/StCore.vos Model/StTyping.vos Model/StRef.vos Proofs/C02Proofs.vos
 Properties/C03.vo Properties/C03.glob Properties/C03.v.beautified Properties/C03.required_vo: Properties/C03.v Model/StCore.vo Model/StTyping.vo Proofs/StProofs.vo
 Properties/C03.vio: Properties/C03.v Model/StCore.vio Model/StTyping.vio Proofs/StProofs.vio
 Properties/C03.vos Properties/C03.vok Properties/C03.required_vos: Properties/C03.v Model/StCore.vos Model/StTyping.vos Proofs/StProofs.vos
